@@ -399,6 +399,48 @@ func runC13(e *Engine, r *Report) {
 	ruleCodecLenPrefix(e, r, 20, "raftpb", "sovRaft")
 	ruleCodecThresholds(e, r, 3, "raftpb", [][2]string{{"(*raftpb.Entry).Size", "(*raftpb.Entry).marshalTo"}, {"(*raftpb.Entry).SizeUpperLimit", "(*raftpb.Entry).marshalTo"}})
 	ruleVarintLadder(e, r, "raftpb.sovRaft")
+	rulePayloadDecodeTotal(e, r)
+}
+
+// rulePayloadDecodeTotal: the entry payload decoder refuses only what the
+// decompressor refuses. The encoder accepts every payload up to the block
+// limit of the compression type, so any further refusal in the decoder (a
+// size cap, a sanity bound) makes some encodable payload undecodable.
+func rulePayloadDecodeTotal(e *Engine, r *Report) {
+	fn := r.need("internal/rsm.getDecodedPayload")
+	if fn == nil {
+		return
+	}
+	fromDecompressor := func(v ssa.Value) bool {
+		c, ok := v.(*ssa.Call)
+		if !ok {
+			return false
+		}
+		sc := c.Call.StaticCallee()
+		if sc == nil || sc.Pkg == nil {
+			return false
+		}
+		pp := sc.Pkg.Pkg.Path()
+		return strings.HasSuffix(pp, "internal/utils/dio") || strings.Contains(pp, "snappy")
+	}
+	n := 0
+	e.forEachInstrRegion(fn, 1, func(in ssa.Instruction) {
+		ret, ok := in.(*ssa.Return)
+		if !ok || errResultIndex(in.Parent()) < 0 {
+			return
+		}
+		ev := retOperand(ret, errResultIndex(in.Parent()))
+		if isNilConst(ev) {
+			return
+		}
+		if in.Parent() != fn && fromDecompressor(ev) {
+			return
+		}
+		n++
+		r.check(e.dependsOn(ev, fromDecompressor, 1), "TBL-payload-total", "error return of "+fname(in.Parent())+" #"+itoa(n), e.ipos(in),
+			"the decoder fails only when the decompressor fails", "the payload decoder refuses an input for a reason of its own: the encoder accepts payloads the decoder now rejects")
+	})
+	r.floor("TBL-payload-total", n, 1)
 }
 
 // fields of a type covered by the constant part of its SizeUpperLimit
@@ -493,6 +535,23 @@ func checkValidatorGates(e *Engine, r *Report, rule string, names []string, exem
 					return true
 				}
 				lastv := retOperand(ret, len(ret.Results)-1)
+				// a (bool, error) caller reports the verdict in its bool result
+				if errResultIndex(fn) == len(ret.Results)-1 {
+					for i := 0; i < len(ret.Results)-1; i++ {
+						if bt, ok := ret.Results[i].Type().Underlying().(*types.Basic); ok && bt.Kind() == types.Bool && isBool {
+							lastv = retOperand(ret, i)
+							if lastv == v {
+								return false // the verdict itself is passed on
+							}
+							if _, isC := isConstBool(lastv); !isC {
+								if _, isPhi := lastv.(*ssa.Phi); !isPhi {
+									return false // computed: passed on to the caller
+								}
+							}
+							break
+						}
+					}
+				}
 				if cb, isC := isConstBool(lastv); isC {
 					return cb
 				}
